@@ -263,6 +263,12 @@ fn exec_dist(n: usize, k: usize, trials: u64, seed: u64, cells_total: u64, obs: 
     let track = n <= SUBSET_TRACKING_MAX_N;
     let mut subsets = vec![0u64; if track { 1 << n } else { 1 }];
     let mut winners = vec![0u64; n];
+    // large populations: one pair of entrants per trial, chosen by the harness' own generator from the observed
+    // entrant set, is a uniformly random pair of the population iff every k-subset is equally likely; its
+    // index distance d has probability (n-d)/C(n,2). ("indices congruent modulo m never meet" shows here.)
+    let mut pick = FastRng::new(seed ^ 0x0d15_7a9c);
+    let mut distances = vec![0u64; if track { 0 } else { n }];
+    let mut pair_trials = 0u64;
     for trial_no in 0..trials {
         CMP_LOG.with(|l| l.borrow_mut().clear());
         let Ok(Ok(w)) = catch(|| t.select(&pop, &mut rng).map(|x| x.id)) else {
@@ -282,6 +288,22 @@ fn exec_dist(n: usize, k: usize, trials: u64, seed: u64, cells_total: u64, obs: 
         }
         subsets[mask] += 1;
         winners[w as usize] += 1;
+        if !track && k >= 2 {
+            let mut ent: Vec<u32> = CMP_LOG.with(|l| l.borrow().clone());
+            ent.push(w);
+            ent.sort_unstable();
+            ent.dedup();
+            if ent.len() >= 2 {
+                use rand::Rng;
+                let a = pick.random_range(0..ent.len());
+                let mut b = pick.random_range(0..ent.len() - 1);
+                if b >= a {
+                    b += 1;
+                }
+                distances[ent[a].abs_diff(ent[b]) as usize] += 1;
+                pair_trials += 1;
+            }
+        }
     }
     obs.count("steps", trials);
     obs.nontrivial(mix(mix(9, n as u64), k as u64));
@@ -313,6 +335,26 @@ fn exec_dist(n: usize, k: usize, trials: u64, seed: u64, cells_total: u64, obs: 
             return v;
         }
     }
+    if !track && pair_trials > 0 {
+        let pairs = stats::binom(n as u64, 2);
+        for (d, count) in distances.iter().enumerate().skip(1) {
+            let p = (n - d) as f64 / pairs;
+            obs.hit("stat-cells");
+            let verdict = stats::decide(pair_trials, *count, p, cells_total);
+            if verdict.violated {
+                v.push(Violation::new(
+                    "every-k-subset-equally-likely",
+                    format!("entrant-pair-distance:n{n}"),
+                    format!(
+                        "Tournament({k}) over {n} members, {pair_trials} seeded runs: two entrants at index distance {d} met {count} times, \
+                         expected probability {p:.5} (n*KL = {:.1}, threshold {:.1})",
+                        verdict.stat, verdict.threshold
+                    ),
+                ));
+                return v;
+            }
+        }
+    }
     for (i, count) in winners.iter().enumerate() {
         // rank r = i+1 wins iff it is drawn and the other k-1 entrants have lower rank
         let r = (i + 1) as u64;
@@ -340,8 +382,8 @@ struct C07;
 
 /// Larger populations: thresholds such as "k*k <= n" or "16*k <= n" select other code paths; for n <= 16 the
 /// entrant sets are still tracked, beyond that only the winner-rank law is decided.
-const BIG_CELLS: [(usize, usize); 12] =
-    [(9, 3), (12, 2), (16, 3), (16, 4), (25, 2), (25, 5), (40, 3), (100, 2), (100, 10), (300, 3), (1000, 2), (1000, 31)];
+const BIG_CELLS: [(usize, usize); 14] =
+    [(9, 3), (12, 2), (16, 3), (16, 4), (25, 2), (25, 5), (40, 3), (100, 2), (100, 10), (150, 4), (300, 2), (300, 3), (1000, 2), (1000, 31)];
 const SUBSET_TRACKING_MAX_N: usize = 16;
 
 fn dist_cells(max_n: usize) -> Vec<(usize, usize)> {
@@ -357,7 +399,7 @@ fn dist_cells(max_n: usize) -> Vec<(usize, usize)> {
 
 fn cells_total(max_n: usize) -> u64 {
     // subset cells (2^n per (n,k), only non-empty ones are tested) + rank cells
-    dist_cells(max_n).iter().map(|(n, _)| if *n <= SUBSET_TRACKING_MAX_N { (1u64 << n) + *n as u64 } else { *n as u64 }).sum()
+    dist_cells(max_n).iter().map(|(n, _)| if *n <= SUBSET_TRACKING_MAX_N { (1u64 << n) + *n as u64 } else { 2 * *n as u64 }).sum()
 }
 
 impl Check for C07 {
